@@ -429,7 +429,7 @@ func init() {
 		Name:    "SIGNCONV",
 		Doc:     "in the protobuf->JSON converter, the value of an unsigned kind (UINT32, UINT64, FIX32, FIX64) reaches the text encoder as an unsigned quantity: walking back from the integer argument of the text encoder (json.Encode*/strconv.Append*/Format*) through its conversions, the value must be unsigned at its last width change (or at the encoder when the width never changes) — otherwise values >= 2^31 / 2^63 print as negative numbers",
 		Configs: "NP",
-		Floor:   map[string]int{"N": 4, "P": 4},
+		Floor:   map[string]int{"N": 3, "P": 3},
 		Run:     runSignConv,
 	})
 }
